@@ -98,6 +98,7 @@ type fnCtx struct {
 }
 
 type frame struct {
+	evalPos token.Pos // source position of the call site being asserted (incase)
 	fc       *fnCtx
 	fn       *ssa.Function
 	parent   *frame
@@ -590,7 +591,7 @@ func (e *Engine) genFunction(fn *ssa.Function) (fc *fnCtx, err error) {
 	}
 	sort.Strings(atKeys)
 	for _, k := range atKeys {
-		if !fc.atHit[k] {
+		if !fc.atHit[k] && !fc.c.AtOpt[k] {
 			fc.sc.cur = -1
 			o := &Obligation{Name: fc.oblName("at", k+".anchor"), Func: fc.key, Kind: "at", Anchor: k + ".anchor", Prefix: 0, Reach: "true", Cond: "false",
 				Desc: "the call " + k + " named by an at-clause of the contract is not in the function body", script: fc.sc, Inputs: fc.inputs, Blk: -1}
